@@ -103,6 +103,10 @@ pub struct DelegCase {
     /// the provided method has a type parameter (`fn d<T: 'static>(..)`, called as `d::<u8>`)
     #[serde(default)]
     pub generic_method: bool,
+    /// the applies_default_impl() clause is the documented catch-all: unquantified, next to a specific clause
+    /// of the same method that never matches (`some_call(<rejects>).returns(0)` declared before it)
+    #[serde(default)]
+    pub catch_all_default: bool,
 }
 
 /// response of required method m for argument x (a known function, so results can be predicted)
@@ -253,6 +257,9 @@ pub fn source(c: &DelegCase) -> String {
         clauses.push(format!(
             "M::d{dwt}.each_call(&|m| m.func(|_, _| true)).applies_default_impl().n_times({k}).then().answers(&|_, _, _{dans}| 424242u32)"
         ));
+    } else if c.explicit_default_impl && delegated > 0 && !c.ordered && c.catch_all_default {
+        clauses.push(format!("M::d{dwt}.each_call(&|m| m.func(|_, _| false)).answers(&|_, _, _{dans}| 31337u32)"));
+        clauses.push(format!("M::d{dwt}.each_call(&|m| m.func(|_, _| true)).applies_default_impl()"));
     } else if c.explicit_default_impl && delegated > 0 && !c.ordered {
         clauses.push(format!(
             "M::d{dwt}.each_call(&|m| m.func(|_, _| true)).applies_default_impl().n_times({delegated})"
@@ -389,6 +396,7 @@ pub fn judge(c: &DelegCase, line: &str) -> Result<CaseInfo, String> {
     })
     .class_if(c.partial, "partial-mock")
     .class_if(c.generic_method, "provided-method-has-a-type-parameter")
+    .class_if(c.catch_all_default && c.explicit_default_impl && !c.ordered && c.default_body_calls().is_none(), "catch-all-applies_default_impl-after-a-specific-clause")
     .class_if(c.ordered, "required:ordered")
     .class_if(!c.ordered, "required:unordered")
     .class_if(
@@ -445,9 +453,9 @@ pub fn case_strategy() -> impl Strategy<Value = DelegCase> {
         any::<bool>(),
         proptest::bool::weighted(0.4),
         any::<bool>(),
-        (prop_oneof![2 => Just(0u8), 1 => 1..8u8], proptest::bool::weighted(0.3)),
+        (prop_oneof![2 => Just(0u8), 1 => 1..8u8], proptest::bool::weighted(0.3), proptest::bool::weighted(0.3)),
     )
-        .prop_map(|(recv, mut body, mut history, ordered, explicit_default_impl, partial, later_answering_clause, (then_answer_after, generic_method))| {
+        .prop_map(|(recv, mut body, mut history, ordered, explicit_default_impl, partial, later_answering_clause, (then_answer_after, generic_method, catch_all_default))| {
             if recv == Recv::Value {
                 // a by-value receiver is consumed by the first call it is passed to
                 body.calls.truncate(1);
@@ -456,7 +464,7 @@ pub fn case_strategy() -> impl Strategy<Value = DelegCase> {
                 }
                 history.truncate(1);
             }
-            DelegCase { recv, body, history, ordered, explicit_default_impl, partial, later_answering_clause, then_answer_after, generic_method }
+            DelegCase { recv, body, history, ordered, explicit_default_impl, partial, later_answering_clause, then_answer_after, generic_method, catch_all_default }
         })
 }
 
